@@ -9,13 +9,13 @@ import (
 	"os/exec"
 	"path/filepath"
 	"reflect"
+	"sort"
 	"strings"
 	"testing"
 	"time"
 
 	"github.com/jmeaster30/vore/libvore"
 	"github.com/jmeaster30/vore/libvore/engine"
-	"github.com/jmeaster30/vore/libvore/files"
 	"pgregory.net/rapid"
 )
 
@@ -29,7 +29,7 @@ type CLICase struct {
 	FJSONFile bool   `json:"fjson_file"`
 	Mode      string `json:"mode"` // "" (absent) | NEW | NOTHING | OVERWRITE | BOGUS
 	NoOutput  bool   `json:"no_output"`
-	Files     string `json:"files"`      // "one" | "glob" | "subdir" | "nomatch" | "absent"
+	Files     string `json:"files"`      // "one" | "glob" | "subdir" | "dirname" | "nomatch" | "overlap" | "absent"
 	Dir       int    `json:"dir"`        // which directory fixture
 	StaleSink bool   `json:"stale_sink"` // out.json / outf.json exist beforehand, longer than any result
 }
@@ -65,6 +65,8 @@ func (c CLICase) args() []string {
 		a = append(a, "-files", "sub") // a directory is not a file: nothing to search
 	case "nomatch":
 		a = append(a, "-files", "*.nothing")
+	case "overlap":
+		a = append(a, "-files", "b.t*txt") // prefix and suffix would have to overlap in b.txt: selects nothing
 	}
 	if c.JSON {
 		a = append(a, "-json")
@@ -146,8 +148,11 @@ func checkCLICase(c CLICase) (sig, what string, nmatch int) {
 					lp = capturePanic(r)
 				}
 			}()
-			pattern := map[string]string{"one": "b.txt", "glob": "*.txt", "subdir": "sub/*.txt", "dirname": "sub", "nomatch": "*.nothing"}[c.Files]
-			fileList = files.ParsePath(pattern).GetFileList(dir)
+			pattern := map[string]string{"one": "b.txt", "glob": "*.txt", "subdir": "sub/*.txt", "dirname": "sub", "nomatch": "*.nothing", "overlap": "b.t*txt"}[c.Files]
+			// the files the pattern describes, by the harness's reference glob (C20's
+			// oracle), in the library's order (directory order = sorted by name)
+			fileList = expectedFiles(dir, strings.Split(pattern, "/"))
+			sort.Strings(fileList)
 			var v *libvore.Vore
 			v, lerr = libvore.Compile(cliPrograms[c.Program])
 			if lerr == nil && len(fileList) > 0 {
@@ -306,7 +311,7 @@ func allCLICases() []CLICase {
 					for _, fjf := range []bool{false, true} {
 						for _, mode := range []string{"", "NEW", "NOTHING", "OVERWRITE", "BOGUS"} {
 							for _, no := range []bool{false, true} {
-								for _, fl := range []string{"one", "glob", "subdir", "dirname", "nomatch", "absent"} {
+								for _, fl := range []string{"one", "glob", "subdir", "dirname", "nomatch", "overlap", "absent"} {
 									out = append(out, CLICase{Program: prog, ViaSrc: src, JSON: jm&1 != 0, FJSON: jm&2 != 0, JSONFile: jf, FJSONFile: fjf, Mode: mode, NoOutput: no, Files: fl})
 								}
 							}
@@ -344,7 +349,7 @@ func runCLICase(t fataler, st *Stats, c CLICase) {
 func TestC18Sample(t *testing.T) {
 	seedNote(t)
 	StartWatchdog("C18", 120*time.Second)
-	st := NewStats("C18", "sample", "random sample of the cross product {find, replace, non-compiling, -src naming no file} x {-com,-src} x {none,-json,-formatted-json,both} x -json-file x -formatted-json-file x -replace-mode {absent,NEW,NOTHING,OVERWRITE,bogus} x -no-output x {one file, glob, glob in a sub-directory, glob matching nothing, -files absent} over two directory fixtures, run as subprocesses of the freshly built binary; oracle: the library's result on the same directory; non-trivial = >=1 match and at least one JSON sink; distinct by flag vector and fixture")
+	st := NewStats("C18", "sample", "random sample of the cross product {find, replace, non-compiling, -src naming no file} x {-com,-src} x {none,-json,-formatted-json,both} x -json-file x -formatted-json-file x -replace-mode {absent,NEW,NOTHING,OVERWRITE,bogus} x -no-output x {one file, glob, glob in a sub-directory, a directory name, glob matching nothing, glob whose literal pieces overlap in a file name, -files absent} over two directory fixtures, run as subprocesses of the freshly built binary; oracle: the library's result on the same directory; non-trivial = >=1 match and at least one JSON sink; distinct by flag vector and fixture")
 	defer st.Write()
 	all := allCLICases()
 	rapid.Check(t, func(t *rapid.T) {
@@ -358,7 +363,7 @@ func TestC18Sample(t *testing.T) {
 func TestC18All(t *testing.T) {
 	seedNote(t)
 	StartWatchdog("C18", 120*time.Second)
-	st := NewStats("C18", "all", "exhaustive: all 7680 flag vectors of the cross product x 2 directory fixtures; same oracle")
+	st := NewStats("C18", "all", "exhaustive: all 8960 flag vectors of the cross product x 2 directory fixtures; same oracle")
 	st.Exhaustive = true
 	defer st.Write()
 	nshards := envInt("VERIF_NSHARDS", 1)
